@@ -476,16 +476,88 @@ def c17(tier, seed):
     return finish(agg, "exploration", cov, HIST_ASSUME + ["the wrapper table maps each C name to the C++ overload of the same name and arity (not to what the wrapper currently forwards to)"], floors)
 
 
+# --------------------------------------------------------------------------------------------- C19
+MEM_SRCS = COMMON + ["mon_mem.cpp"]
+ASAN_ENV = {"ASAN_OPTIONS": "detect_leaks=1:abort_on_error=0:exitcode=66:detect_stack_use_after_return=1:strict_string_checks=1:check_initialization_order=1:allocator_may_return_null=1",
+            "UBSAN_OPTIONS": "print_stacktrace=1:halt_on_error=1", "LSAN_OPTIONS": "exitcode=67"}
+VALGRIND = ["valgrind", "--tool=memcheck", "-q", "--error-exitcode=77", "--track-origins=yes", "--leak-check=full", "--errors-for-leak-kinds=definite,indirect",
+            "--show-leak-kinds=definite,indirect", "--child-silent-after-fork=yes", "--num-callers=20"]
+
+
+@prop("C19")
+def c19(tier, seed):
+    agg = Agg("C19", tier, seed)
+    thorough = tier == "thorough"
+    S = str
+    shards = []
+    mem_asan = build.build_bin("asan", "mon_mem", MEM_SRCS, whole_archive=True)
+    mem_excasan = build.build_bin("exc-asan", "mon_mem", MEM_SRCS, whole_archive=True)
+    mem_plain = build.build_bin("plain", "mon_mem", MEM_SRCS, whole_archive=True)
+    parts = 8 if thorough else 4
+    for p in ("d", "l"):
+        for i in range(parts):
+            shards.append(Shard(mem_asan, ["--mode", "pairs", "--prec", p, "--shard", S(i), "--parts", S(parts), "--seed", S(seed)], "asan/pairs/%s/%d" % (p, i), env=ASAN_ENV, timeout=3600))
+        for mode in ("orders", "vectors"):
+            shards.append(Shard(mem_asan, ["--mode", mode, "--prec", p, "--seed", S(seed)], "asan/%s/%s" % (mode, p), env=ASAN_ENV, timeout=3600))
+        shards.append(Shard(mem_excasan, ["--mode", "extremes", "--prec", p, "--seed", S(seed)], "exc-asan/extremes/%s" % p, env=ASAN_ENV, timeout=3600))
+        shards.append(Shard(mem_plain, ["--mode", "growth", "--prec", p], "plain/growth/%s" % p))
+    shards.append(Shard(mem_asan, ["--mode", "carrays", "--seed", S(seed)], "asan/carrays", env=ASAN_ENV))
+    # the history / catalogue / C-ABI / name workloads again, under the sanitizers
+    hist_a = build.build_bin("exc-asan", "mon_hist", HIST_SRCS)
+    hist_pa = build.build_bin("asan", "mon_hist", HIST_SRCS)
+    steps = 20000 if thorough else 2500
+    for i, focus in enumerate(["store", "purity", "registry", "fatal"] * (2 if thorough else 1)):
+        shards.append(Shard(hist_a, ["--mode", "random", "--focus", focus, "--steps", S(steps), "--seed", S(seed), "--shard", S(700 + i)], "exc-asan/hist-%s/%d" % (focus, i), env=ASAN_ENV, timeout=7200))
+    shards.append(Shard(hist_pa, ["--mode", "random", "--focus", "store", "--steps", S(steps), "--seed", S(seed), "--shard", "760"], "asan/hist-store", env=ASAN_ENV, timeout=7200))
+    shards.append(Shard(hist_a, ["--mode", "sweep", "--seed", S(seed), "--shard", "770"], "exc-asan/sweep", env=ASAN_ENV, timeout=3600))
+    shards.append(Shard(hist_pa, ["--mode", "exhaustive", "--maxlen", "3", "--parts", "1", "--shard", "0", "--seed", S(seed)], "asan/exhaustive3", env=ASAN_ENV, timeout=3600))
+    cabi_a = build.build_bin("exc-asan", "mon_cabi", CABI_SRCS, whole_archive=True)
+    shards.append(Shard(cabi_a, ["--seed", S(seed), "--shard", "780", "--steps", S(steps)], "exc-asan/cabi", env=ASAN_ENV, timeout=7200))
+    cat_a = build.build_bin("exc-asan", "mon_cat", CAT_SRCS)
+    for p in ("d", "l"):
+        shards.append(Shard(cat_a, ["--mode", "c15", "--prec", p, "--seed", S(seed), "--shard", "0", "--parts", "1" if thorough else "3"], "exc-asan/c15/%s" % p, env=ASAN_ENV, timeout=3600))
+        shards.append(Shard(cat_a, ["--mode", "c14", "--prec", p, "--seed", S(seed)], "exc-asan/c14/%s" % p, env=ASAN_ENV, timeout=3600))
+    names_a = build.build_bin("exc-asan", "mon_names", COMMON + ["mon_names.cpp"])
+    shards.append(Shard(names_a, ["--seed", S(seed), "--shard", "790", "--n", "3000" if thorough else "600", "--prec", "d"], "exc-asan/names", env=ASAN_ENV, timeout=3600))
+    # valgrind memcheck on the plain build: the tool for uninitialised reads
+    hist_p = hist_exe("plain")
+    vg = [(mem_plain, ["--mode", "small", "--prec", "d", "--seed", S(seed)], "vg/mem-small/d"), (mem_plain, ["--mode", "small", "--prec", "l", "--seed", S(seed)], "vg/mem-small/l"),
+          (hist_p, ["--mode", "random", "--focus", "store", "--steps", "2500" if thorough else "350", "--seed", S(seed), "--shard", "800"], "vg/hist-store"),
+          (hist_p, ["--mode", "random", "--focus", "purity", "--steps", "2500" if thorough else "350", "--seed", S(seed), "--shard", "801"], "vg/hist-purity")]
+    if thorough:
+        vg.append((hist_p, ["--mode", "sweep", "--seed", S(seed), "--shard", "802"], "vg/sweep"))
+        vg.append((build.build_bin("plain", "mon_cabi", CABI_SRCS, whole_archive=True), ["--seed", S(seed), "--shard", "803", "--steps", "2500"], "vg/cabi"))
+    for exe, args, label in vg:
+        shards.append(Shard(exe, args, label, wrapper=VALGRIND, timeout=7200))
+    agg.add_shards(run_shards(shards))
+    growth = agg.stats.get("heap_growth_1000_reinits", [])
+    cov = {"evaluations": agg.count("api_operations") + agg.count("steps"), "distinct_nontrivial": agg.shards + agg.count("ordered_init_pairs"),
+           "rule": "API histories run under ASan+UBSan+LSan (reports fatal, detect_leaks=1, detect_stack_use_after_return=1, strict_string_checks=1) and valgrind memcheck "
+                   "(--track-origins, leak kinds definite+indirect): all ordered pairs of solution types initialised on one handle and on two handles, every solution in 3 random "
+                   "orders on a dirtied heap with one evaluation of everything, vector parameters re-set 64->0->1->64->3->0->200->2, C array calls n=0..40 into exact-size heap buffers, "
+                   "masa_get_name into an uninitialised heap buffer, invalid gradient indices / moment orders -3..25 / extreme finite arguments, and the C10-C17 history, sweep, "
+                   "catalogue, C-ABI and name workloads again. Conservation monitor: live solution objects == registered handles after every operation. Plain build: heap in use "
+                   "after 1000 further masa_init calls. Distinct = shards (one history each) + ordered init pairs.",
+           "shards_by_tool": {"asan+ubsan+lsan": sum(1 for s in shards if s.env is ASAN_ENV), "valgrind": sum(1 for s in shards if s.wrapper), "plain": 2},
+           "ordered_init_pairs": agg.count("ordered_init_pairs"), "c_array_roundtrips": agg.count("c_array_roundtrips"), "extreme_calls": agg.count("extreme_calls"),
+           "heap_growth_bytes_after_1000_reinits": growth, "sanitizer_command": "g++ -O1 -g -fsanitize=address,undefined -fno-sanitize-recover=all; " + ASAN_ENV["ASAN_OPTIONS"],
+           "valgrind_command": " ".join(VALGRIND)}
+    floors = [("all 36x36 ordered init pairs in both precisions", agg.count("ordered_init_pairs") >= 2 * 36 * 36), ("C array round trips n=0..40", agg.count("c_array_roundtrips") >= 41),
+              ("heap growth measured in both precisions", agg.count("reinit_growth_measurements") == 2), ("at least 3 valgrind shards", sum(1 for s in shards if s.wrapper) >= 3)]
+    return finish(agg, "exploration", cov, ["ASan/UBSan miss intra-object and non-adjacent wild accesses, memcheck misses stack/global overruns: 'no report on these histories', not 'memory safe'",
+                                            "libstdc++ and the harness itself are part of the observed process; leak keys are attributed to the first library frame"], floors)
+
+
 def prebuild():
-    """build every harness binary the quick checks use (called by setup)"""
-    build.build_bin("exc", "mon_names", COMMON + ["mon_names.cpp"])
-    build.build_bin("plain", "mon_names", COMMON + ["mon_names.cpp"])
-    pde_exe("plain")
-    hist_exe("exc")
-    build.build_bin("plain", "mon_cabi", CABI_SRCS, whole_archive=True)
-    build.build_bin("exc", "mon_cabi", CABI_SRCS, whole_archive=True)
-    cat_exe("plain")
-    cat_exe("exc")
-    hist_exe("plain")
-    build.build_bin("plain", "mon_closed", COMMON + ["mon_closed.cpp"], opt="-O2")
-    build.build_bin("plain", "mon_reduce", RED_SRCS, opt="-O2")
+    """build every harness binary the checks use (called by setup), in parallel"""
+    from concurrent.futures import ThreadPoolExecutor
+    names = COMMON + ["mon_names.cpp"]
+    jobs = [("exc", "mon_names", names, {}), ("plain", "mon_names", names, {}), ("exc-asan", "mon_names", names, {}),
+            ("plain", "mon_pde", PDE_SRCS, {"opt": "-O2"}), ("opt", "mon_pde", PDE_SRCS, {"opt": "-O2"}), ("plain", "mon_reduce", RED_SRCS, {"opt": "-O2"}),
+            ("plain", "mon_closed", COMMON + ["mon_closed.cpp"], {"opt": "-O2"}),
+            ("exc", "mon_hist", HIST_SRCS, {}), ("plain", "mon_hist", HIST_SRCS, {}), ("exc-asan", "mon_hist", HIST_SRCS, {}), ("asan", "mon_hist", HIST_SRCS, {}),
+            ("plain", "mon_cat", CAT_SRCS, {}), ("exc", "mon_cat", CAT_SRCS, {}), ("exc-asan", "mon_cat", CAT_SRCS, {}),
+            ("plain", "mon_cabi", CABI_SRCS, {"whole_archive": True}), ("exc", "mon_cabi", CABI_SRCS, {"whole_archive": True}), ("exc-asan", "mon_cabi", CABI_SRCS, {"whole_archive": True}),
+            ("asan", "mon_mem", MEM_SRCS, {"whole_archive": True}), ("exc-asan", "mon_mem", MEM_SRCS, {"whole_archive": True}), ("plain", "mon_mem", MEM_SRCS, {"whole_archive": True})]
+    with ThreadPoolExecutor(6) as ex:
+        list(ex.map(lambda j: build.build_bin(j[0], j[1], j[2], **j[3]), jobs))
